@@ -45,8 +45,10 @@ def canon_pred(p, depth=0):
         op, a, b = p0[1], p0[2], p0[3]
         if strip(a)[0] == 'int' and strip(b)[0] != 'int':
             op, a, b = SWAP[op], b, a
-        if op == 'Ge' and strip(b)[0] == 'int' and strip(b)[1] == 1:
-            op, b = 'Gt', ('int', 0) + tuple(strip(b)[2:])
+        if op == 'Ge' and strip(b)[0] == 'int' and strip(b)[1] >= 1:
+            op, b = 'Gt', ('int', strip(b)[1] - 1) + tuple(strip(b)[2:])
+        if op == 'Lt' and strip(b)[0] == 'int' and strip(b)[1] >= 1:
+            op, b = 'Le', ('int', strip(b)[1] - 1) + tuple(strip(b)[2:])
         # unsigned: x > 0 is x != 0, x <= 0 is x == 0
         if op in ('Gt', 'Le') and strip(b)[0] == 'int' and strip(b)[1] == 0 and len(strip(b)) > 2 and str(strip(b)[2]).startswith('u'):
             op = 'Ne' if op == 'Gt' else 'Eq'
